@@ -82,8 +82,23 @@ def recording_mp(rec, queue_script=None):
         def join_thread(self):
             rec.ops.append(("join_thread", self.qid))
 
+        def cancel_join_thread(self):
+            rec.ops.append(("cancel_join_thread", self.qid))
+
         def qsize(self):
             return len(self.items)
+
+        def empty(self):
+            return not self.items
+
+        def full(self):
+            return bool(self.maxsize and self.maxsize > 0 and len(self.items) >= self.maxsize)
+
+        def put_nowait(self, item):
+            return self.put(item, block=False)
+
+        def get_nowait(self):
+            return self.get(block=False)
 
     class E:
         def __init__(self):
@@ -516,7 +531,12 @@ def stage_ts(script, table, n_workers, fault=False, detects=True, full=None):
                     return out
                 ts.t("put-timeout i%d" % i, "main", (lambda isfull: (lambda s: z3.And(isfull(s), somedead(s), z3.Or(*[z3.And(s["ws%d" % w] == W_DEAD, s["pr%d" % w] == 0) for w in range(W)]))))(isfull), upd)
         elif kind == "join_thread":
-            ts.t("join_thread", "main", (lambda pc: (lambda s: z3.And(s["pc"] == pc, buf_empty(s))))(pc), nxt)
+            cancelled = any(o[0] == "cancel_join_thread" for o in script[:pc])
+            if cancelled:
+                # Queue.cancel_join_thread() was called before: join_thread() returns without waiting for the flush
+                ts.t("join_thread", "main", at, nxt)
+            else:
+                ts.t("join_thread", "main", (lambda pc: (lambda s: z3.And(s["pc"] == pc, buf_empty(s))))(pc), nxt)
         elif kind == "set":
             ts.t("set", "main", at, (lambda pc: (lambda s: {"pc": bmc.bv(pc + 1, 8), "flag": bmc.bv(1, 1)}))(pc))
         elif kind == "join":
@@ -785,10 +805,26 @@ def sched_mp(S):
 
         def join_thread(self):
             me = S.me()
-            S.op("join_thread q%d" % self.qid, lambda: not self.bufs.get(me))
+            # after cancel_join_thread() the call does not wait for the feeder buffer to be flushed
+            S.op("join_thread q%d" % self.qid, lambda: not self.bufs.get(me) or getattr(self, "cancelled", False))
+
+        def cancel_join_thread(self):
+            self.cancelled = True
 
         def qsize(self):
             return len(self.pipe)
+
+        def empty(self):
+            return not self.pipe
+
+        def full(self):
+            return self.maxsize > 0 and self.outstanding >= self.maxsize
+
+        def put_nowait(self, item):
+            return self.put(item, block=False)
+
+        def get_nowait(self):
+            return self.get(block=False)
 
     class E:
         def __init__(self):
